@@ -5,6 +5,7 @@ import (
 	"go/constant"
 	"go/token"
 	"go/types"
+	"strconv"
 	"strings"
 
 	"golang.org/x/tools/go/ssa"
@@ -84,6 +85,7 @@ func linEval(v ssa.Value, isPeriod func(ssa.Value) bool, depth int) linForm {
 func runC17(c *Ctx) {
 	c.rule("S9", "in everything the staleness verdict reaches inside the filesystem package, an error assigned to a variable is read before it is overwritten and a failing side does not return success: a listing that failed is not an empty lock directory", 20)
 	c.staleVerdictErrorsTravel("S9")
+	c.rule("S13", "every sign of life whose times could be read is judged by its age: from a StatTimes call in the staleness test no path reaches the next file or the verdict without isStale having been given what was read, the failed read aside", 2)
 	c.rule("S10", "while the holder is alive the heartbeat is refreshed every period: every beat (re)creates the heartbeat file (a creating write lies in the loop) — a creation that failed once is repaired one period later", 1)
 	c.rule("S11", "the instant written at a beat is read from the clock at that beat (time.Now() evaluated in the loop): a schedule computed from the previous beat drifts from the observers' clocks and never catches up", 1)
 	c.rule("S12", "the instant given to the heartbeat file is read after the write of that beat: a heartbeat that took a while to write is not back-dated (the lock would be reported stale less than two periods after a heartbeat)", 1)
@@ -459,6 +461,67 @@ func runC17(c *Ctx) {
 		badPath := c.c17JudgedPaths(isStaleM, allStale)
 		c.check(badPath == "", "S6", fname(isStaleM)+"/judges-what-is-there", c.pos(isStaleM.Pos()), "ages are read from the files listed in the lock directory (or the directory itself)",
 			"the age read at "+badPath+" is that of a path the observer computed itself (heartBeatFile of its own id) rather than of a file found in the lock directory: holder and observer whose ids differ by surrounding white space share the lock directory (lockPath trims the id) but name the heartbeat file differently, the observer falls back to the directory's age and reports a live lock stale")
+		// S13: "once the holder dies at any point … the lock is reported stale within a bounded delay": every sign of
+		// life whose times could be read is judged by its age. From the StatTimes call no path reaches the next file or the
+		// verdict without the age test having looked at what was read, except where the read failed — a file passed over on
+		// other grounds (it is empty: the holder died between truncating and writing it) counts as alive for ever.
+		{
+			fs13 := []*ssa.Function{isStaleM}
+			if allStale != isStaleM {
+				fs13 = append(fs13, allStale)
+			}
+			for _, f := range fs13 {
+				n := 0
+				allInstrs(f, func(in ssa.Instruction) {
+					st, ok := in.(*ssa.Call)
+					if !ok || !strings.HasSuffix(calleeFull(&st.Call), ".StatTimes") {
+						return
+					}
+					n++
+					key := fname(f) + "/every-readable-sign-is-aged"
+					if n > 1 {
+						key += "#" + strconv.Itoa(n)
+					}
+					errs := errResultsOf(st)
+					judges := func(j ssa.Instruction) bool {
+						cl, ok := j.(*ssa.Call)
+						if !ok || staticCallee(&cl.Call) != isStaleF || len(cl.Call.Args) == 0 {
+							return false
+						}
+						for _, s := range sources(cl.Call.Args[0], deriveOpts{}) {
+							if ex, ok := s.(*ssa.Extract); ok && ex.Tuple == ssa.Value(st) {
+								return true
+							}
+						}
+						return false
+					}
+					prune := func(b *ssa.BasicBlock, k int) bool {
+						ifi, ok := b.Instrs[len(b.Instrs)-1].(*ssa.If)
+						if !ok {
+							return false
+						}
+						x, nilSucc, ok := nilTest(ifi)
+						if !ok {
+							return false
+						}
+						for _, e := range errs {
+							if sameValue(x, e) {
+								return k != nilSucc
+							}
+						}
+						return false
+					}
+					esc := pathPruned(f, st, judges, func(j ssa.Instruction) bool {
+						if _, isRet := j.(*ssa.Return); isRet {
+							return true
+						}
+						return j == ssa.Instruction(st)
+					}, prune)
+					c.check(esc == nil, "S13", key, c.ipos(st), "what StatTimes read is handed to the age test on every path on which the read succeeded",
+						"the times read here can be passed over (path to "+iposOrEmpty(c, esc)+") without the age test: a sign of life that is skipped on other grounds than a failed read — an empty heartbeat file, left by a holder that died between truncating and writing it — counts as alive for ever, the lock never becomes stale and is never recovered")
+				})
+			}
+		}
 		c.c17AttemptStore()
 		// S7: a heartbeat file that cannot be examined says nothing about the holder: it counts as a sign of life.
 		okU, whyU, posU := c.c17UnreadableIsAlive(isStaleM, allStale, isStaleF)
@@ -708,15 +771,15 @@ func (c *Ctx) c17UnreadableIsAlive(isStaleM, combiner, isStaleF *ssa.Function) (
 			return false, "a verdict of 'stale' is handed to the combination at " + constTrue + " without the age having been read: a heartbeat file that cannot be examined counts as stale, and a live lock whose file was just replaced is taken over", constTrue
 		}
 		// and the failing side must still hand something to the combination: no way round the append back to the loop
-		var app ssa.Instruction
+		apps := map[ssa.Instruction]bool{}
 		allInstrs(combiner, func(in ssa.Instruction) {
 			if cl, ok := in.(*ssa.Call); ok && calleeFull(&cl.Call) == "builtin.append" && inLoop(cl) {
-				app = cl
+				apps[cl] = true
 			}
 		})
 		hdr := loopHeaderOf(stat)
-		if app != nil && hdr != nil {
-			skip := pathPruned(combiner, stat, func(in ssa.Instruction) bool { return in == app }, func(in ssa.Instruction) bool { return in.Block() == hdr && in == hdr.Instrs[0] }, nil)
+		if len(apps) > 0 && hdr != nil {
+			skip := pathPruned(combiner, stat, func(in ssa.Instruction) bool { return apps[in] }, func(in ssa.Instruction) bool { return in.Block() == hdr && in == hdr.Instrs[0] }, nil)
 			if skip != nil {
 				return false, "a file can be left out of the combination (the loop goes on to the next file without recording a verdict): a heartbeat file that cannot be examined is treated as absent, and a lock whose only file is in that state is reported stale", c.ipos(stat)
 			}
